@@ -90,6 +90,28 @@ CLAIMED = {
          "Every statement (grammar-generated, token-damaged, deeply nested or oversized, and all 800 SQL strings harvested from the repository plus TPC-H Q1-22, plain and damaged) runs in a long-lived worker process against generated tables plus TPC-H SF 0.001; the oracle is: an Ok or Err reply - never a panic (reported with message and location), never a dead worker (signal), never silence (10 s, then 90 s alone in a fresh process). Exploration; the whole harvested corpus is replayed exhaustively on every run.",
          "Hangs are judged by wall clock only after a 90 s solo confirmation on tiny tables; panics that only exist in overflow-checked builds are still panics of the build the repository tests.", "5 C29"),
 
+ "C03": ("engine-vs-engine differential with refsql as third opinion: production optimizer (statistics-aware, tables registered as memory and as Parquet) vs the unoptimized bound plan, plus every rule alone and every prefix of the production order; disagreements are narrowed to the first rule that changes the answer",
+         "Generators built to make the statistics rules fire (null-free duplicated keys with range >= rows - the ndv_est uniqueness trap, also through DATE keys and join keys; two-integer group/join keys straddling 2^31/2^32 and negatives; aggregates above duplicating joins; OR-of-conjunctions; HAVING totals; EXISTS/IN below joins; shadowing derived columns; sort+limit over reduced aggregates): optimized answer must equal the unoptimized one. Exploration.",
+         "Quick tier runs single rules and prefixes on the Parquet (statistics) side only.", "5 C03"),
+ "C30": ("proptest over sqlgen statements plus hand-written shapes (windows, grouping sets, VALUES, star joins, alias collisions, unaliased outputs, set operations) on memory and Parquet: reported schemas vs every returned batch",
+         "QueryResult.schema and physical_plan().schema() must have the same column count, names and types (up to nullability and dictionary encoding) as every returned batch. Exploration. (Flight GetSchema is checked in C34.)",
+         "Only statements that plan are judged.", "5 C30"),
+ "C31": ("proptest over bound plans of generated statements, with and without statistics: every rule alone, every prefix and the production pipeline must return Ok, keep output names/types, resolve every column reference against the children schemas (harness walker over the public plan/expr enums), and still lower and execute",
+         "The harness's copy of the production rule list is compared with Optimizer::new() on every case. Exploration; non-trivial = the rule changed the plan.",
+         "The column walker is calibrated on the bound plan (the engine's own run-time lookup rule).", "5 C31"),
+ "C32": ("proptest over connected inner-join graphs of 2-7 relations (chains, stars, cycles, cliques, composite edges, non-equi extras) written as comma joins, explicit joins or mixed, with and without statistics: validity predicate on the optimized plan + answer equality",
+         "No cross join / empty-ON inner join, every base relation exactly once, column equivalence classes of the equality predicates equal the original's (union-find; packed key pairs count as their two equalities), every non-equality predicate still present, every join's ON spans both inputs; and the answer equals the unoptimized plan's. Exploration.",
+         "Implied equalities are accepted, as the property allows.", "5 C32"),
+ "C34": ("generated statements and tickets against freshly spawned 1-3-node in-process clusters on loopback: Flight (GetFlightInfo -> DoGet, GetSchema) vs POST /sql?format=arrow",
+         "Statements over spec-described Parquet tables (0, 1-299, 4097-6000 rows; NULLs; wide / non-ASCII strings) from 28 templates (scatter, top-N, two-phase, zero-row, gather-only, every error class), modes auto/force/off spelled independently on both doors: same schema and rows, distributed flag = x-qe-distributed, trailer rows = streamed rows = x-qe-rows, metadata on the last message only, no data message above 4096 rows, GetSchema/FlightInfo describe the batches, errors fail on both doors with corresponding classes, malformed / oversized / wrong-version / unknown-mode tickets are refused with InvalidArgument and never executed. Exploration.",
+         "Each case uses fresh nodes on port 0; at most 4 cases run concurrently.", "5 C34"),
+ "C35": ("stateful proptest: node lifecycle histories (loader immediate / slow / gated / failing; peers up / down / unknown / not-loaded / killed) x request phases x modes x formats against a decision table read from the node's own membership view",
+         "Before the load finishes /sql and /fragment answer 503 (a failed load stays unavailable with the loader's message); mode=0 answers locally; auto distributes iff >=2 members are up and the shape is exactly mergeable, else local with a reason; mode=1 never answers 200 with x-qe-distributed:false and a failed fan-out is an error, never a local fallback; Arrow / JSON / CSV bodies decode to exactly the engine's rows and x-qe-rows matches. Exploration.",
+         "Wall clock never decides: loaders are gated by the check; a changed membership view discards the case.", "5 C35"),
+ "C43": ("proptest over FixedSizeList<Float32,d> tables with tied / NULL / zero vectors in memory and Parquet: production optimizer vs the rule list without VectorSearchPushdown, plus a k-best-distances reference and must-not-fire shapes",
+         "ORDER BY <distance> [ASC|DESC] LIMIT k [OFFSET m] for the four distance functions, k up to n+3: same rows as the full sort + LIMIT up to distance ties (multiset of the k best distances within 1e-6); the rewrite must not fire on extra sort keys, missing LIMIT, wrapped distances, wrong direction, filters or joins. Exploration.",
+         "Distances are compared with C38's tolerance.", "5 C43"),
+
  "C36": ("proptest over 187 function signatures: engine evaluation over columns, re-sliced batches, literals and mixed paths, compared with independent Rust references, algebraic laws / known-answer vectors, and NULL-propagation rules",
          "Each generated case evaluates one scalar function on 1-16 argument tuples four ways (column batch, re-sliced batches, all-literal, mixed) and demands agreement with an independent reference where a repo document settles the value, with laws (round-trips, idempotence, digest known answers) elsewhere, NULL-in-NULL-out for strict arguments, and equality of all evaluation paths. Exploration; path-only functions get the weaker oracle (stated in DESIGN).",
          "References are taken from the repository's function tests / Trino plan docs; regions no document settles are compared for path agreement only.", "5 C36"),
